@@ -79,3 +79,19 @@ void harness(void)
 	if (oka && dist == 33) WITNESS("two-piece skip succeeds");
 	WITNESS("end");
 }
+
+/* seek-based skipping over the full range of a member's packed size (a 32-bit header field): no loop, so the
+ * distance can be arbitrary; the position must advance by exactly the distance */
+void harness_seek(void)
+{
+	INPUT(u64, pos); INPUT(u64, len); INPUT(u32, dist);
+	MFile a;
+	int ra;
+	ASSUME(pos <= len && len < ((u64) 1 << 40));
+	a.pos = pos; a.len = len; a.eof = 0; a.accesses = 0; a.seekable = 1;
+	ra = file_source_skip(&a, dist);
+	CHECK(ra && a.pos == pos + dist, "C13/C16: a seekable stream skips any packed size up to 2^32-1 by exactly that many bytes");
+	CHECK(a.accesses <= 1, "C13: one seek");
+	if (dist >= 0x80000000u) WITNESS("skip of 2 GiB or more");
+	WITNESS("end");
+}
